@@ -318,12 +318,19 @@ func c14Run(r *core.Run) {
 	values := c14ValueList(r.Thorough())
 	r.Bound("values", values)
 	n := 0
-	if r.Thorough() {
-		r.Bound("triple_forms", c14TripleForms)
-		r.Bound("triple_values", c14TripleValues)
-		for _, e := range c14TripleForms {
-			for _, vx := range c14TripleValues {
-				for _, vy := range c14TripleValues {
+	{
+		// quick: six representative kinds and four values; thorough: all 14 kinds and seven values
+		forms, tvals, kinds := c14TripleForms, c14TripleValues, c14Kinds
+		if !r.Thorough() {
+			tvals = []string{"-1", "1", "2", "0.5"}
+			kinds = []string{"json.Number", "int", "uint8", "float32", "float64", "decimal128"}
+		}
+		r.Bound("triple_forms", forms)
+		r.Bound("triple_values", tvals)
+		r.Bound("triple_kinds", kinds)
+		for _, e := range forms {
+			for _, vx := range tvals {
+				for _, vy := range tvals {
 					n++
 					if !r.Mine(n) {
 						continue
@@ -332,10 +339,10 @@ func c14Run(r *core.Run) {
 						return
 					}
 					r.Add("states", 1)
-					for _, vz := range c14TripleValues {
-						for _, kx := range c14Kinds {
-							for _, ky := range c14Kinds {
-								for _, kz := range c14Kinds {
+					for _, vz := range tvals {
+						for _, kx := range kinds {
+							for _, ky := range kinds {
+								for _, kz := range kinds {
 									r.Begin(map[string]any{"expr": e, "doc": vx + " " + vy + " " + vz + " " + kx + " " + ky + " " + kz})
 									if v := c14Triple(r, e, kx, ky, kz, vx, vy, vz); v != nil {
 										r.Violate(v)
